@@ -598,7 +598,8 @@ class Interp:
                 return ("op", "array", ops)
             return ("op", "agg:" + ak, ops)
         if k == "repeat":
-            return ("op", "repeat", (self.operand(st, fid, rv["op"]),))
+            # `[x; N]`: the evaluated length is part of the operator's name when the driver knows it
+            return ("op", "repeat" + (rv.get("len") or ""), (self.operand(st, fid, rv["op"]),))
         if k == "threadlocalref":
             return ("sym", "threadlocal:" + rv["def"])
         raise Unsupported("rvalue " + k)
